@@ -7,13 +7,17 @@ Import ListNotations.
 
 (* d_falsy: the nodes whose object evaluates to False; d_literal: the tree under test still has the literal
    truth-value test of the task mark (read off a directed run), so its walk is the walk on `blind` *)
+(* d_copied: the nodes on which copy_dependencies was called (their mark is a copy); d_copyfix: the tree under
+   test searches the parameters of such a node (fixes/C04-3.diff, read off a directed run): its walk is the walk
+   on `uncopy` *)
 Record dcase := { d_heap : heap; d_root : nat; d_explicit : list nat; d_observed : list nat;
-                  d_falsy : list nat; d_literal : bool }.
+                  d_falsy : list nat; d_literal : bool; d_copied : list nat; d_copyfix : bool }.
 
 Definition subset (a b : list nat) : bool := forallb (fun x => mem x b) a.
 
 Definition check_deps (c : dcase) : bool :=
-  match collect (if d_literal c then blind (fun t => mem t (d_falsy c)) (d_heap c) else d_heap c) 64 (d_root c) (d_explicit c) with
+  let h0 := if d_copyfix c then uncopy (d_copied c) (d_heap c) else d_heap c in
+  match collect (if d_literal c then blind (fun t => mem t (d_falsy c)) h0 else h0) 64 (d_root c) (d_explicit c) with
   | Some ds => subset ds (d_observed c) && subset (d_observed c) ds
   | None => false
   end.
